@@ -73,6 +73,42 @@ CLAIMED["C03"] = dict(
     design="§4 C03",
 )
 
+CLAIMED["C11"] = dict(
+    text="Lean 4 theorems over a state-machine model of `reuse annotate` on an abstract file system (path lists of any length, "
+         "any position and any set of failing files, header builder / style table / binary detection universally quantified): "
+         "C11_failed_unchanged (builder fails for p => p and p.license are exactly as before, none created), C11_each_alone and "
+         "C11_others_processed (every other path ends as if p were not in the list), C11_exit (status 1 iff some path fails, else 0), "
+         "C11_exit_range, C11_usage_first (usage error => status 2, tree untouched), C11_fails_iff_builder, C11_order_irrelevant "
+         "(set iteration order is unobservable), C11_rest_of_tree. Tied to the code by generated real CLI invocations over 1-6 "
+         "files with every anticipated failure reason, .license option and usage error in every position, whole-tree snapshots "
+         "(type, bytes, mode, mtime), model fed from the generator's ground truth, and the property's clauses as oracle.",
+    note="The model is the behaviour after fixes/annotate-no-empty-license.diff (a .license file created for a header that then "
+         "fails is removed again). Trusted: Lean kernel, harness; the header builder (comment creation, Jinja, post-render check) is "
+         "a parameter, which written paths it fails for is generator ground truth; hypotheses Separate (paths pairwise distinct and "
+         "not each other's sibling; violated only by naming FILE and FILE.license together, exercised separately) and WfPath (no "
+         "empty path / trailing slash). Licence-only-dropping templates belong to C07 and are not generated.",
+    technique="Lean 4 proof (frame + locality + induction over the path list) + real-CLI snapshot differential with generator ground truth",
+    design="§4 C11",
+)
+
+CLAIMED["C15"] = dict(
+    text="Lean 4 frame theorems on an abstract file system: C15_frame (for every command, every path outside the documented write "
+         "set - annotate: named files or, with --recursive, covered files below named directories, and their .license siblings; "
+         "convert-dep5: REUSE.toml and .reuse/dep5; download: destinations and their parent; spdx -o: the output - is unchanged), "
+         "C15_history (any command sequence), C15_annotate_no_link (a symbolic link is never a written path), C15_expand_recursive, "
+         "C15_convert_shape (create REUSE.toml + remove dep5, or nothing), C15_download_only_adds / C15_download_new. Tied to the "
+         "code by generated command lines of every sub-command, alone and in sequences of 2-4, on projects with outward symlinks, "
+         "Git-ignored and tracked files, LICENSES/, .reuse/, a read-only file and an outside sentinel: metadata snapshots around every "
+         "command, model history vs implementation, and (thorough) an strace write-syscall monitor.",
+    note="Partial: lint, lint-file, spdx without -o, supported-licenses, --help, --version have no write operation in the model "
+         "(C15_read_only is true by construction); for them, and for 'a write at p affects p only', the claim rests on the snapshot "
+         "(sha1, mode, size, mtime_ns, link targets, .git index/HEAD/config digest) and the system-call monitor. The model is the "
+         "behaviour after fixes/annotate-skip-symlinks.diff and fixes/git-status-no-index-refresh.diff. download is verified in depth "
+         "under C19 (here: frame only, network stubbed). Paths through a symlinked directory and dangling sibling links are not generated.",
+    technique="Lean 4 proof (frame condition per command, induction over histories) + snapshot/sentinel differential + strace monitor",
+    design="§4 C15",
+)
+
 NOT_YET = {}
 
 
